@@ -19,10 +19,14 @@ Vocabulary (defined in Lemmas/IntSet*.lean)
 * `s.elems d`     : the mathematical member sequence: the domain values `x` (ascending) with
                     `s.contains x`
 * `lexOrd`        : lexicographic order on member sequences (the specification of `Ord`)
+* `DRInv D rs`    : range list in *domain* normal form (end points are domain values; sorted,
+                    disjoint; a domain value lies between any two ranges) — `iter_ranges` on a
+                    discontinuous domain
 -/
 import FontVerif.Model.IntSet
 import FontVerif.Lemmas.IntSetObs
 import FontVerif.Lemmas.IntSetEq
+import FontVerif.Lemmas.IntSetCmp
 set_option linter.unusedVariables false
 namespace FontVerif.C14IntSet
 open FontVerif FontVerif.IntSet
@@ -375,12 +379,43 @@ theorem intset_excludedRanges (d : Domain) (hd : DomWF d) (hc : d.continuous = t
     expand (s.excludedRanges d) = s.invert.elems d :=
   IntSet.excludedRanges_spec hd hc h
 
-/-- `intersects_set`, all four mode combinations, whichever side gets iterated -/
-theorem intset_intersectsSet (d : Domain) (hd : DomWF d) (hc : d.continuous = true)
-    (a b : IntSet) (ha : IInvD d a) (hb : IInvD d b) :
+/-- `iter_ranges()` / `iter_excluded_ranges()` on a DISCONTINUOUS domain, both modes (the
+inclusive walk merges ranges that are adjacent in the domain, the exclusive walk steps through
+the domain): both are in domain normal form and cover exactly the members / non-members among
+the domain values -/
+theorem intset_ranges_discontinuous (d : Domain) (hd : DomWF d) (hc : d.continuous = false)
+    (s : IntSet) (h : IInvD d s) :
+    DRInv (expand d.ranges) (s.ranges d) ∧
+    (∀ x, d.contains x = true → (NMem (s.ranges d) x ↔ s.contains x = true)) ∧
+    DRInv (expand d.ranges) (s.excludedRanges d) ∧
+    (∀ x, d.contains x = true → (NMem (s.excludedRanges d) x ↔ s.contains x = false)) := by
+  obtain ⟨a1, a2⟩ := IntSet.rangesInvertible_disc hd hc h false
+  obtain ⟨b1, b2⟩ := IntSet.rangesInvertible_disc hd hc h true
+  refine ⟨a1, fun x hx => ?_, b1, fun x hx => ?_⟩
+  · have := a2 x (Domain.contains_iff_mem.1 hx)
+    unfold IntSet.ranges; rw [this]; simp
+  · have := b2 x (Domain.contains_iff_mem.1 hx)
+    unfold IntSet.excludedRanges; rw [this]; simp
+
+/-- domain normal form is canonical: same domain members ⇒ same range list -/
+theorem ranges_canonical_domain (D : List Nat) (as bs : List (Nat × Nat)) (ha : DRInv D as)
+    (hb : DRInv D bs) (h : ∀ x ∈ D, (NMem as x ↔ NMem bs x)) : as = bs :=
+  drinv_ext ha hb h
+
+/-- `iter_ranges()` of two sets coincide ⇔ the sets have the same members: every well-formed
+domain (continuous or not), all four mode combinations -/
+theorem intset_ranges_canonical (d : Domain) (hd : DomWF d) (a b : IntSet) (ha : IInvD d a)
+    (hb : IInvD d b) :
+    a.ranges d = b.ranges d ↔ ∀ x, d.contains x = true → a.contains x = b.contains x :=
+  IntSet.ranges_canonical hd ha hb
+
+/-- `intersects_set`: every well-formed domain, all four mode combinations, whichever side gets
+iterated -/
+theorem intset_intersectsSet (d : Domain) (hd : DomWF d) (a b : IntSet) (ha : IInvD d a)
+    (hb : IInvD d b) :
     a.intersectsSet d b = true ↔
       ∃ v, d.contains v = true ∧ a.contains v = true ∧ b.contains v = true :=
-  IntSet.intersectsSet_spec hd hc ha hb
+  IntSet.intersectsSet_spec' hd ha hb
 
 /-! ## 5. Eq / Hash / Ord agree with the mathematical set -/
 
@@ -394,49 +429,110 @@ theorem bitset_cmp (a b : BitSet) (ha : BInv a) (hb : BInv b) :
     a.cmp b = lexOrd a.members b.members :=
   BitSet.cmp_spec a b ha hb
 
-/-- `IntSet == IntSet` ⇔ same members: all four mode combinations on a continuous domain (the
-mixed-mode comparison goes through `len` and `iter_ranges`) … -/
-theorem intset_beq (d : Domain) (hd : DomWF d) (hc : d.continuous = true) (a b : IntSet)
-    (ha : IInvD d a) (hb : IInvD d b) :
-    a.beq d b = true ↔ ∀ x, d.contains x = true → a.contains x = b.contains x :=
-  IntSet.beq_spec hd hc ha hb
+/-- `impl Ord for BitSet`: `Equal` exactly when `==` -/
+theorem bitset_cmp_eq (a b : BitSet) (ha : BInv a) (hb : BInv b) :
+    a.cmp b = .eq ↔ a.beq b = true := by
+  rw [BitSet.cmp_spec a b ha hb, lexOrd_eq_iff, BitSet.beq_spec a b ha hb]
+  constructor
+  · intro he x
+    have h1 := BitSet.mem_members a ha x
+    have h2 := BitSet.mem_members b hb x
+    rw [he] at h1
+    cases hx : a.contains x <;> cases hy : b.contains x <;> simp_all
+  · intro hx
+    apply asc_ext (BitSet.members_asc a ha) (BitSet.members_asc b hb)
+    intro x
+    rw [BitSet.mem_members a ha, BitSet.mem_members b hb, hx x]
 
-/-- … and same-mode comparisons on any domain. -/
-theorem intset_beq_same_mode (d : Domain) (a b : IntSet) (ha : IInvD d a) (hb : IInvD d b)
-    (hm : a.inverted = b.inverted) :
+/-- `IntSet == IntSet` ⇔ same members: every well-formed domain, all four mode combinations (the
+mixed-mode comparison goes through `len` and `iter_ranges`) -/
+theorem intset_beq (d : Domain) (hd : DomWF d) (a b : IntSet) (ha : IInvD d a) (hb : IInvD d b) :
     a.beq d b = true ↔ ∀ x, d.contains x = true → a.contains x = b.contains x :=
-  IntSet.beq_spec_same_mode ha hb hm
+  IntSet.beq_spec' hd ha hb
 
 /-- hash agreement: what `impl Hash` feeds the hasher is equal ⇔ the sets have the same members
 (so `a == b → hash a = hash b`, and distinct sets feed distinct keys) -/
-theorem intset_hashKey (d : Domain) (hd : DomWF d) (hc : d.continuous = true) (a b : IntSet)
-    (ha : IInvD d a) (hb : IInvD d b) :
+theorem intset_hashKey (d : Domain) (hd : DomWF d) (a b : IntSet) (ha : IInvD d a)
+    (hb : IInvD d b) :
     (a.hashKey d = b.hashKey d ↔ ∀ x, d.contains x = true → a.contains x = b.contains x) ∧
     (a.hashKey d = b.hashKey d ↔ a.beq d b = true) := by
-  have h1 := IntSet.hashKey_spec hd hc ha hb
-  exact ⟨h1, by rw [h1, IntSet.beq_spec hd hc ha hb]⟩
+  have h1 := IntSet.hashKey_spec' hd ha hb
+  exact ⟨h1, by rw [h1, IntSet.beq_spec' hd ha hb]⟩
 
-/-- `impl Ord for IntSet` is the lexicographic order on the ascending member sequences in all
-four mode combinations, and `cmp = Equal ⇔ ==` -/
-theorem intset_cmp (d : Domain) (hd : DomWF d) (hc : d.continuous = true) (a b : IntSet)
-    (ha : IInvD d a) (hb : IInvD d b) :
+/-- `impl Ord for IntSet` is the lexicographic order on the ascending member sequences: every
+well-formed domain, all four mode combinations; and `cmp = Equal ⇔ ==` -/
+theorem intset_cmp (d : Domain) (hd : DomWF d) (a b : IntSet) (ha : IInvD d a) (hb : IInvD d b) :
     a.cmp d b = lexOrd (a.elems d) (b.elems d) ∧
     (a.cmp d b = .eq ↔ a.beq d b = true) := by
-  have h1 := IntSet.cmp_spec hd hc ha hb
+  have h1 := IntSet.cmp_spec' hd ha hb
   refine ⟨h1, ?_⟩
-  rw [h1, lexOrd_eq_iff, elems_eq_iff hd, IntSet.beq_spec hd hc ha hb]
-
-/-- inclusive sets on any (also discontinuous) domain -/
-theorem intset_cmp_inclusive (d : Domain) (hd : DomWF d) (a b : IntSet)
-    (ha : IInvD d a) (hb : IInvD d b) (h1 : a.inverted = false) (h2 : b.inverted = false) :
-    a.cmp d b = lexOrd (a.elems d) (b.elems d) ∧
-    (a.cmp d b = .eq ↔ a.beq d b = true) := by
-  have h := IntSet.cmp_spec_inclusive hd ha hb h1 h2
-  refine ⟨h, ?_⟩
-  rw [h, lexOrd_eq_iff, elems_eq_iff hd, IntSet.beq_spec_same_mode ha hb (by rw [h1, h2])]
+  rw [h1, lexOrd_eq_iff, elems_eq_iff hd, IntSet.beq_spec' hd ha hb]
 
 /-- `lexOrd` is the usual lexicographic order: `Equal` only on equal sequences -/
 theorem lexOrd_eq (xs ys : List Nat) : lexOrd xs ys = .eq ↔ xs = ys := lexOrd_eq_iff xs ys
+
+/-! ## 3 + 4 + 5 combined: every observer of every history reports the mathematical set -/
+
+/-- For every history whose arguments are domain values: size, first / last, forward / backward
+/ after-value iteration and range-intersection tests are those of the mathematical set
+`h.spec d`, listed in ascending order as `E`. -/
+theorem history_observers (d : Domain) (hd : DomWF d) (h : Hist) (hw : h.WF d) :
+    (h.run d).len d = some ((expand d.ranges).filter (h.spec d)).length ∧
+    (h.run d).first d = ((expand d.ranges).filter (h.spec d)).head? ∧
+    (h.run d).last d = ((expand d.ranges).filter (h.spec d)).getLast? ∧
+    (∀ k, (h.run d).iterTake d k = ((expand d.ranges).filter (h.spec d)).take k) ∧
+    (∀ k, (h.run d).iterBackTake d k = ((expand d.ranges).filter (h.spec d)).reverse.take k) ∧
+    (∀ v k, (h.run d).iterAfterTake d v k =
+      (((expand d.ranges).filter (h.spec d)).filter (fun x => decide (x > v))).take k) ∧
+    (∀ a b, d.contains a = true → ((h.run d).intersectsRange d a b = true ↔
+      ∃ x, a ≤ x ∧ x ≤ b ∧ d.contains x = true ∧ h.spec d x = true)) := by
+  have hs := Hist.run_spec d h
+  have hinv : IInvD d (h.run d) := ⟨hs.1, Hist.run_inDom d h hw⟩
+  have he : (h.run d).elems d = (expand d.ranges).filter (h.spec d) := by
+    unfold IntSet.elems; congr 1; funext x; exact hs.2 x
+  rw [← he]
+  refine ⟨IntSet.len_spec hd hinv, IntSet.first_eq hd hinv, IntSet.last_eq hd hinv,
+    IntSet.iterTake_eq hd hinv, IntSet.iterBackTake_eq hd hinv, IntSet.iterAfterTake_eq hd hinv,
+    fun a b ha => ?_⟩
+  rw [IntSet.intersectsRange_spec hd hinv a b ha]
+  constructor
+  · rintro ⟨x, h1, h2, h3, h4⟩; exact ⟨x, h1, h2, h3, by rw [← hs.2 x]; exact h4⟩
+  · rintro ⟨x, h1, h2, h3, h4⟩; exact ⟨x, h1, h2, h3, by rw [hs.2 x]; exact h4⟩
+
+/-- For every two histories: `==`, hash-key equality, `cmp` and `intersects_set` of the built
+sets are equality / lexicographic order / non-empty intersection of the mathematical sets. -/
+theorem history_compare (d : Domain) (hd : DomWF d) (h1 h2 : Hist) (hw1 : h1.WF d)
+    (hw2 : h2.WF d) :
+    ((h1.run d).beq d (h2.run d) = true ↔
+      ∀ x, d.contains x = true → h1.spec d x = h2.spec d x) ∧
+    ((h1.run d).hashKey d = (h2.run d).hashKey d ↔
+      ∀ x, d.contains x = true → h1.spec d x = h2.spec d x) ∧
+    (h1.run d).cmp d (h2.run d) =
+      lexOrd ((expand d.ranges).filter (h1.spec d)) ((expand d.ranges).filter (h2.spec d)) ∧
+    ((h1.run d).intersectsSet d (h2.run d) = true ↔
+      ∃ x, d.contains x = true ∧ h1.spec d x = true ∧ h2.spec d x = true) := by
+  have s1 := Hist.run_spec d h1
+  have s2 := Hist.run_spec d h2
+  have i1 : IInvD d (h1.run d) := ⟨s1.1, Hist.run_inDom d h1 hw1⟩
+  have i2 : IInvD d (h2.run d) := ⟨s2.1, Hist.run_inDom d h2 hw2⟩
+  have e1 : (h1.run d).elems d = (expand d.ranges).filter (h1.spec d) := by
+    unfold IntSet.elems; congr 1; funext x; exact s1.2 x
+  have e2 : (h2.run d).elems d = (expand d.ranges).filter (h2.spec d) := by
+    unfold IntSet.elems; congr 1; funext x; exact s2.2 x
+  refine ⟨?_, ?_, ?_, ?_⟩
+  · rw [IntSet.beq_spec' hd i1 i2]
+    constructor
+    · intro h x hx; rw [← s1.2 x, ← s2.2 x]; exact h x hx
+    · intro h x hx; rw [s1.2 x, s2.2 x]; exact h x hx
+  · rw [IntSet.hashKey_spec' hd i1 i2]
+    constructor
+    · intro h x hx; rw [← s1.2 x, ← s2.2 x]; exact h x hx
+    · intro h x hx; rw [s1.2 x, s2.2 x]; exact h x hx
+  · rw [IntSet.cmp_spec' hd i1 i2, e1, e2]
+  · rw [IntSet.intersectsSet_spec' hd i1 i2]
+    constructor
+    · rintro ⟨x, h, ha, hb⟩; exact ⟨x, h, by rw [← s1.2 x]; exact ha, by rw [← s2.2 x]; exact hb⟩
+    · rintro ⟨x, h, ha, hb⟩; exact ⟨x, h, by rw [s1.2 x]; exact ha, by rw [s2.2 x]; exact hb⟩
 
 /-! ## non-vacuity: concrete states -/
 
